@@ -210,9 +210,78 @@ def ownership_items(repo):
                  witness=None if ok else {"shared_arguments": bad[:4], "arguments_checked": checked})]
 
 
+def carried_state_items(repo):
+    """The entities of one declaration statement are processed independently: in the loop over obj_info.var_names every
+    local that the loop body assigns is assigned in the same iteration before it is read (nothing computed for one
+    entity is left over for the next)."""
+    fp = repo.func(f"{PARSER}.parse")
+    loops = [n for n in ast.walk(fp.node) if isinstance(n, ast.For) and ast.unparse(n.iter) == "obj_info.var_names"]
+    bad = []
+    checked = 0
+    for loop in loops:
+        written = {n.id for n in ast.walk(loop) if isinstance(n, ast.Name) and isinstance(n.ctx, ast.Store)}
+        written |= {loop.target.id} if isinstance(loop.target, ast.Name) else set()
+        # names bound by comprehensions are local to them
+        for comp in [n for n in ast.walk(loop) if isinstance(n, (ast.ListComp, ast.SetComp, ast.DictComp, ast.GeneratorExp))]:
+            for gen in comp.generators:
+                written -= {n.id for n in ast.walk(gen.target) if isinstance(n, ast.Name)}
+
+        def reads(node):
+            return [n for n in ast.walk(node) if isinstance(n, ast.Name) and isinstance(n.ctx, ast.Load) and n.id in written]
+
+        def targets(t):
+            if isinstance(t, ast.Name):
+                return {t.id}
+            if isinstance(t, (ast.Tuple, ast.List)):
+                return set().union(*[targets(e) for e in t.elts]) if t.elts else set()
+            return set()
+
+        def walk(stmts, assigned):
+            nonlocal checked
+            cur = set(assigned)
+            for st_ in stmts:
+                if isinstance(st_, ast.If):
+                    for r_ in reads(st_.test):
+                        checked += 1
+                        if r_.id not in cur:
+                            bad.append({"name": r_.id, "where": fp.where(r_)})
+                    a = walk(st_.body, cur)
+                    b = walk(st_.orelse, cur)
+                    cur = a & b
+                elif isinstance(st_, (ast.For, ast.While)):
+                    walk(st_.body, cur)
+                elif isinstance(st_, ast.Try):
+                    walk(st_.body, cur)
+                elif isinstance(st_, (ast.Continue, ast.Break, ast.Return)):
+                    return set(written)  # the path leaves the iteration: nothing after it is constrained by it
+                else:
+                    val = getattr(st_, "value", None)
+                    for r_ in (reads(val) if val is not None else reads(st_)):
+                        checked += 1
+                        if r_.id not in cur:
+                            bad.append({"name": r_.id, "where": fp.where(r_)})
+                    if isinstance(st_, ast.Assign):
+                        for t in st_.targets:
+                            cur |= targets(t)
+                    elif isinstance(st_, ast.AnnAssign) and st_.value is not None:
+                        cur |= targets(st_.target)
+                    elif isinstance(st_, ast.AugAssign):
+                        for r_ in reads(st_.target):
+                            pass
+            return cur
+        start = {loop.target.id} if isinstance(loop.target, ast.Name) else set()
+        walk(loop.body, start)
+    ok = bool(loops) and checked > 0 and not bad
+    return [Item("C11/FortranFile.parse/frame.entities_processed_independently", "proved" if ok else "refuted", "structural", 0.0,
+                 where=fp.where(), mode="table", func=fp.qualname,
+                 detail=f"{checked} reads of loop-assigned locals in the entity loop of a declaration statement: each is preceded, in "
+                        "the same iteration and on every path, by an assignment (no value carried from one entity to the next)",
+                 witness=None if ok else {"read_before_assigned_in_the_iteration": bad[:5], "loops_found": len(loops)})]
+
+
 def extra(repo, reg, tier, seed):
     from contracts import c11_gen
-    items = structure_items(repo) + ownership_items(repo)
+    items = structure_items(repo) + ownership_items(repo) + carried_state_items(repo)
     w, n, nd, ns = c11_gen.run(tier, seed)
     it = Item("C11/session/generated_declaration_oracle", "refuted" if w else "bounded-ok", "native-run(bounded)", 0.0, mode="bounded",
               witness=w, confirmed=True if w else None, func=f"{LS}.serve_hover",
